@@ -202,6 +202,11 @@ bool QXmppRosterManager::handleStanza(const QDomElement &element)
         return false;
     }
 
+    // a client does not serve roster queries: leave them to the fallback, which answers them with an error
+    if (element.attribute(u"type"_s) == u"get") {
+        return false;
+    }
+
     // Security check: only server should send this iq
     // from() should be either empty or bareJid of the user
     const auto fromJid = element.attribute(u"from"_s);
